@@ -352,8 +352,8 @@ pub fn case(t: &mut Tape, ctx: &CaseCtx) -> CaseResult {
 
 pub fn run(mut run: Run) -> i32 {
     run.replay_committed(&case);
-    run.random("robustness: arbitrary inputs, stored values, URLs, clocks", &[Tape::encode_choice(0, 2)], run.n(80_000, 1_500_000), 700, &case);
-    run.random("storage faults vs healthy twin", &[Tape::encode_choice(1, 2)], run.n(40_000, 800_000), 700, &case);
+    run.random("robustness: arbitrary inputs, stored values, URLs, clocks", &[Tape::encode_choice(0, 2)], run.n(200_000, 2_000_000), 700, &case);
+    run.random("storage faults vs healthy twin", &[Tape::encode_choice(1, 2)], run.n(100_000, 1_000_000), 700, &case);
     run.finish(
         RULE,
         500,
